@@ -243,7 +243,11 @@ impl CanonicalRequest {
                         }
                     };
 
-                    query_parameters.extend(query_string_to_normalized_map(body_query.as_str())?);
+                    // Append the body parameters to the URL parameters; a name present in both keeps all of its values
+                    // (`HashMap::extend` would replace the URL values with the body values).
+                    for (key, mut values) in query_string_to_normalized_map(body_query.as_str())? {
+                        query_parameters.entry(key).or_default().append(&mut values);
+                    }
                     // Rebuild the parts URI with the new query string.
                     let qs = canonicalize_query_to_string(&query_parameters);
                     trace!("Rebuilding URI with new query string: {}", qs);
